@@ -89,6 +89,8 @@ RunResult run_plan(const Plan &plan, Stats *total, bool want_allocs) {
 
 // ------------------------------------------------------------------ generator
 static uint32_t draw_len(Rng &r, unsigned limit, unsigned bias) {
+    // rarely: a really large value (a page, 64 KiB): thresholds that only big data crosses
+    if (r.below(400) == 0) { static const uint32_t BIG[] = {4095, 4096, 4097, 8200, 65535, 65536, 65537}; return BIG[r.below(7)]; }
     // bias 0 uniform over classes, 1 limit-heavy, 2 long-heavy
     static const int W[3][13] = {{2, 2, 1, 2, 3, 3, 3, 2, 1, 2, 2, 1, 1}, {1, 1, 1, 3, 6, 6, 5, 2, 1, 1, 1, 1, 1}, {1, 1, 0, 1, 2, 3, 3, 3, 2, 4, 4, 3, 3}};
     int tot = 0; for (int w : W[bias % 3]) tot += w;
@@ -111,6 +113,7 @@ static uint32_t draw_len(Rng &r, unsigned limit, unsigned bias) {
     }
 }
 static uint32_t draw_stream_len(Rng &r) {
+    if (r.below(300) == 0) { static const uint32_t BIG[] = {8191, 8192, 8193, 16385, 65535, 65536, 65537, 131073}; return BIG[r.below(8)]; }
     switch (r.below(14)) {
     case 0: return 0; case 1: return 1; case 2: return 2 + r.below(14); case 3: return 100 + r.below(60);
     case 4: return 255; case 5: return 256; case 6: return 257; case 7: return 300; case 8: return 511 + r.below(3);
